@@ -50,24 +50,35 @@ def build(case, ck, counter):
 
     ns = {"__name__": "vf_generated", "jnp": jnp, "__count": counter}
     parts = []
+    arr_t = jax.Array
+    if case.get("typevar"):
+        # the array type is spelled through a TypeVar (bound, or constrained): shorthand for its bound / the union of its constraints
+        import typing
+
+        arr_t = typing.TypeVar("VfArr", bound=jax.Array) if case["typevar"] == "bound" else typing.TypeVar("VfArr", jax.Array, np.ndarray)
+    kint = case.get("int_name") or "kint"
     for i, p in enumerate(case["params"]):
-        ns[f"A_{p['name']}"] = (getattr(jaxtyping, case.get("cat", "Float")) if i in case.get("cat_params", []) else Float)[jax.Array, gc.spec_of(p)]
+        ns[f"A_{p['name']}"] = (getattr(jaxtyping, case.get("cat", "Float")) if i in case.get("cat_params", []) else Float)[arr_t, gc.spec_of(p)]
         # a numeric default (the argument is passed explicitly anyway) on the trailing parameters
         parts.append(f"{p['name']}: A_{p['name']}" + (" = 1.0" if p.get("default") else ""))
     if case.get("int_scalar"):
         # an unrelated 0-d integer argument (a step counter, a seed): it takes no part in any axis
+        # (it may be called like an axis of the other annotations: argument names and axis names are different namespaces)
         ns["A_kint"] = jaxtyping.Int[jax.Array, ""]
-        parts.append("kint: A_kint" + (" = None" if any(p.get("default") for p in case["params"]) else ""))  # (always passed explicitly)
+        ns["A_kfloat"] = Float[jax.Array, ""]
+        parts.append(f"{kint}: A_kint" + (" = None" if any(p.get("default") for p in case["params"]) else ""))  # (always passed explicitly)
     retstr = ""
     if case["ret"] is not None:
-        ns["A_ret"] = Float[jax.Array, gc.spec_of(case["ret"])]
+        ns["A_ret"] = Float[arr_t, gc.spec_of(case["ret"])]
         retstr = " -> A_ret"
         shape = tuple(case["ret"]["shape"])
     else:
         shape = ()
     # the result depends on every argument (so that grad has something to differentiate) but has a static shape
-    dep = " + ".join([f"jnp.sum({p['name']})" for p in case["params"]] + (["kint"] if case.get("int_scalar") else [])) or "0.0"
-    src = f"def fn({', '.join(parts)}){retstr}:\n    __count.append(1)\n    return jnp.zeros({shape!r}, dtype='float32') + ({dep}) * 0.0\n"
+    dep = " + ".join([f"jnp.sum({p['name']})" for p in case["params"]] + ([kint] if case.get("int_scalar") else [])) or "0.0"
+    # a manual isinstance in the body (dispatch on dtype): a failing check of a scalar is an ordinary False, traced or not
+    manual = f"    assert not isinstance({kint}, A_kfloat)\n" if case.get("int_scalar") else ""
+    src = f"def fn({', '.join(parts)}){retstr}:\n    __count.append(1)\n{manual}    return jnp.zeros({shape!r}, dtype='float32') + ({dep}) * 0.0\n"
     gc.exec_source(src, "<vf-c17>", ns)
     with warnings.catch_warnings():
         warnings.simplefilter("ignore")
@@ -187,7 +198,7 @@ def check_case(ctx, case):
     ctx.extra["transformed_calls"] = ctx.extra.get("transformed_calls", 0) + len(trans)
     ctx.note([[(gc.spec_of(p), p["shape"]) for p in case["params"]], case["ret"] and (gc.spec_of(case["ret"]), case["ret"]["shape"]), in_axes, in_axes2, ck],
              (len(case["params"]) >= 2 and shared) or not ref,
-             classes=([f"category-{case.get('cat')}"] if case.get("cat_params") else []) + (["python-scalar-arguments"] if any(s == () for s in shapes) else []) + (["unrelated-int-scalar-argument"] if case.get("int_scalar") else []) + [f"verdict-{eager}", f"nparams-{len(case['params'])}", f"checker-{ck}"] + (["shared-name"] if shared else []) + (["some-in_axes-None"] if None in in_axes else []) + (["parameter-named-like-axis-in-expression"] if case.get("shadowing_names") else []),
+             classes=([f"category-{case.get('cat')}"] if case.get("cat_params") else []) + (["python-scalar-arguments"] if any(s == () for s in shapes) else []) + (["unrelated-int-scalar-argument"] if case.get("int_scalar") else []) + (["int-scalar-argument-named-like-an-axis"] if case.get("int_scalar") and case.get("int_name") else []) + ([f"array-type-typevar-{case['typevar']}"] if case.get("typevar") else []) + [f"verdict-{eager}", f"nparams-{len(case['params'])}", f"checker-{ck}"] + (["shared-name"] if shared else []) + (["some-in_axes-None"] if None in in_axes else []) + (["parameter-named-like-axis-in-expression"] if case.get("shadowing_names") else []),
              sample={"params": [(p["name"], gc.spec_of(p), p["shape"]) for p in case["params"]], "ret": case["ret"] and (gc.spec_of(case["ret"]), case["ret"]["shape"]),
                      "in_axes": in_axes, "verdict": eager})
 
@@ -240,6 +251,12 @@ def c17_case(draw):
     case["checker"] = draw(st.sampled_from(["typeguard", "beartype"]))
     # some parameters are annotated with another dtype category than Float (all arrays are float32)
     case["int_scalar"] = draw(st.sampled_from([True, False, False]))
+    axis_names = sorted({m[1] for e in entries for m in gc.meanings_of(e) if m[0] == "named" and isinstance(m[1], str)})
+    import keyword
+
+    axis_names = [a for a in axis_names if a.isascii() and a.isidentifier() and not keyword.iskeyword(a) and a not in {p["name"] for p in case["params"]}]
+    case["int_name"] = draw(st.sampled_from(axis_names)) if axis_names and draw(st.integers(0, 1)) == 0 else None
+    case["typevar"] = draw(st.sampled_from([None, "bound", None, "constrained", None]))
     case["cat"] = draw(st.sampled_from(["Float16", "Float32", "Inexact", "Float64", "Shaped", "Int", "Num", "BFloat16"]))
     case["cat_params"] = sorted(i for i in range(n) if draw(st.integers(0, 3)) == 0) if draw(st.integers(0, 1)) == 0 else []
     return case
